@@ -310,6 +310,9 @@ func (i ItemCollection) Recipients() ItemCollection {
 	all := make(ItemCollection, 0)
 	for _, it := range i {
 		_ = OnObject(it, func(ob *Object) error {
+			if ob == nil {
+				return nil
+			}
 			aud := ob.Audience
 			_ = all.Append(ItemCollectionDeduplication(&ob.To, &ob.CC, &ob.Bto, &ob.BCC, &aud)...)
 			return nil
